@@ -31,6 +31,8 @@ CLAIMED = {
          "Coq proof over block descriptions (printer/parser round trip) + correspondence check", "DESIGN.md section 6 C14"),
  'C18': ("Soundness theorem of the verified rename-equivalence checker (a history satisfies the renamed/embedded system iff its pull-back along the renaming satisfies the original) evaluated in the kernel on the systems emitted for (i) a program and its consistently renamed twin, (ii) stand-alone economies and their part of a joint multi-currency model; plus the restriction lemma and evaluation-commutes-with-renaming for all expressions; all builds are also solved and compared by the oracle.",
          GEN_NOTE, "Coq-verified rename-equivalence checker on pairs of emitted systems", "DESIGN.md section 6 C18"),
+ 'C09': ("Coq theorems over the reals: the book's period equations of SIM, SIMEX1 and PC determine the closed forms for all parameter values, exogenous values and stocks; the verified emitted-system checker certifies (with the parameters kept symbolic) every period equation from the equations the bundled builders emit; exit bound of the hand-coded iterative SIM; '%0.4f' formatting is exact iff the parameter has at most four decimals (known finding D09 otherwise). The oracle compares Model.GetTimeSeries with an independent evaluation of the recursion for random parameter vectors, paths and stocks.",
+         GEN_NOTE, "Coq proofs (field arithmetic) + verified checker on the builders' emitted equations + closed-form oracle", "DESIGN.md section 6 C09"),
 }
 def chk(pid):
     text, note, tech, ref = CLAIMED[pid]
